@@ -23,13 +23,14 @@ KINDS = {
 }
 
 
-def wrappers(ctx, F, kind, traits, floor, mt=True):
+def wrappers(ctx, F, kind, traits, floor, mt=True, rule_suffix=""):
     k = KINDS[kind]
     n = 0
-    cnt0 = ctx.rule_counts.get("E-WRAP." + kind, [0])[0]
-    n += ewrap.check_impl_wrappers(ctx, F, "E-WRAP." + kind, k["st"], k["alg"], k["mod"], k["op"], traits)
+    rn = "E-WRAP." + kind + rule_suffix
+    cnt0 = ctx.rule_counts.get(rn, [0])[0]
+    n += ewrap.check_impl_wrappers(ctx, F, rn, k["st"], k["alg"], k["mod"], k["op"], traits)
     if mt and k["mt"]:
-        n += ewrap.check_impl_wrappers(ctx, F, "E-WRAP." + kind, k["mt"], k["alg"], k["mod"], k["op"], traits)
-    cnt = ctx.rule_counts.get("E-WRAP." + kind, [0])[0] - cnt0
-    ctx.floor("E-WRAP." + kind, "wrappers of %s interpreted" % "/".join(t.split("::")[-1] for t in traits), cnt, floor)
+        n += ewrap.check_impl_wrappers(ctx, F, rn, k["mt"], k["alg"], k["mod"], k["op"], traits)
+    cnt = ctx.rule_counts.get(rn, [0])[0] - cnt0
+    ctx.floor(rn, "wrappers of %s interpreted" % "/".join(t.split("::")[-1] for t in traits), cnt, floor)
     return n
